@@ -1195,6 +1195,9 @@ Section Erase.
       destruct args; [|reflexivity].
       destruct left; try reflexivity; try (apply L_index with (i := 0%Z)).
       + destruct kvs as [|[k v] t]; reflexivity.
+      + cbn [is_mapping erase_with]. destruct (okind_eqb (o_kind h) KMapping).
+        * destruct (o_loop h); [reflexivity|]. destruct items as [|[k v] t]; reflexivity.
+        * apply (L_index (VObj h items aitems seq attrs) 0%Z).
     - (* FLast *)
       destruct args; [|reflexivity].
       destruct left; try reflexivity; try (apply L_index with (i := (-1)%Z)).
